@@ -27,6 +27,7 @@ type Obs struct {
 	Events   int    `json:"fatal_events"`
 	Growing  bool   `json:"growing"`
 	Probe    bool   `json:"probe"`
+	Replied  int    `json:"replied"`
 	Died     int    `json:"died"` // 0 alive, 1 unrecovered panic, 2 concurrent map writes, 3 out of memory, 4 stack overflow, 5 other fatal error, 6 other exit, 7 heap above the child's ceiling
 	Banner   string `json:"banner,omitempty"`
 	HeapMB   []int  `json:"heap_mb,omitempty"`
@@ -189,7 +190,7 @@ loop:
 }
 
 func toObs(ro RawObs) Obs {
-	return Obs{Conns: ro.Conns, Finished: ro.Finished, Events: ro.FatalEvts, Growing: ro.Growing, Probe: ro.Probe, HeapMB: ro.HeapMB, Ms: ro.Ms}
+	return Obs{Conns: ro.Conns, Finished: ro.Finished, Events: ro.FatalEvts, Growing: ro.Growing, Probe: ro.Probe, Replied: ro.Replied, HeapMB: ro.HeapMB, Ms: ro.Ms}
 }
 
 // runShard runs all scenarios of a shard, restarting children as needed.
@@ -249,7 +250,7 @@ func runShard(o hx.Opts, scens []Scenario, hangMs int) []result {
 }
 
 var svcCode = map[string]int{}
-var streamCode = map[string]int{"dialogue": 1, "truncated": 2, "mutated": 3, "raw": 4, "ssh": 6, "tftp-load": 8}
+var streamCode = map[string]int{"dialogue": 1, "truncated": 2, "mutated": 3, "raw": 4, "ssh": 6, "tftp-load": 8, "ber": 9, "ber-fuzz": 9}
 var sshTypeCode = map[string]int{"env": 1, "exec": 2, "shell": 3, "pty-req": 4, "subsystem": 5, "tcpip-forward": 6}
 var sshChanCode = map[string]int{"": 0, "session": 0, "direct-tcpip": 1, "forwarded-tcpip": 2}
 
@@ -286,10 +287,10 @@ func coqCase(id int, sc Scenario, ob Obs) string {
 	if sc.Serial {
 		par = 1
 	}
-	return fmt.Sprintf("mkCase %s %s %s %s %s %s %s %s %s %s %s %s %s %s %s", hx.CoqN(uint64(id)), hx.CoqN(uint64(svcCode[sc.Svc])),
+	return fmt.Sprintf("mkCase %s %s %s %s %s %s %s %s %s %s %s %s %s %s %s %s", hx.CoqN(uint64(id)), hx.CoqN(uint64(svcCode[sc.Svc])),
 		hx.CoqBool(sc.Proto == "udp"), hx.CoqN(uint64(st)), hx.CoqList(conns, "conn"), hx.CoqList(ssh, "(N * bytes)%type"), hx.CoqN(uint64(chanc)),
 		hx.CoqN(uint64(par)), hx.CoqN(uint64(sc.Rounds)),
-		hx.CoqN(uint64(ob.Conns)), hx.CoqN(uint64(ob.Finished)), hx.CoqN(uint64(ob.Events)), hx.CoqBool(ob.Growing), hx.CoqBool(ob.Probe), hx.CoqN(uint64(ob.Died)))
+		hx.CoqN(uint64(ob.Conns)), hx.CoqN(uint64(ob.Finished)), hx.CoqN(uint64(ob.Events)), hx.CoqBool(ob.Growing), hx.CoqBool(ob.Probe), hx.CoqN(uint64(ob.Died)), hx.CoqN(uint64(ob.Replied)))
 }
 
 func main() {
@@ -352,6 +353,18 @@ func main() {
 		}
 		for _, sc := range tftpLoadScenarios(r, nload) {
 			shards = append(shards, []Scenario{sc})
+		}
+		bers := berScenarios()
+		if o.Tier != "quick" {
+			bers = append(bers, berFuzzScenarios(r, 1500)...)
+		}
+		for len(bers) > 0 {
+			n := 60
+			if n > len(bers) {
+				n = len(bers)
+			}
+			shards = append(shards, bers[:n])
+			bers = bers[n:]
 		}
 		var sh []Scenario
 		for i := 0; i < nssh; i++ {
